@@ -8,9 +8,11 @@ CONSTANTS
   EditNames = {"start", "drop_D", "cost_D", "add_E", "drop_L", "mod_B", "rm_A", "add_item", "mod_B_drop_D", "unparsable", "unreadable", "badcost", "failstart"}
   KF_StaleFlags = FALSE
   KF_NoReloadMutex = FALSE
-  DumpFile = "scenarios.ndjson"
+  DumpFile = ""
+  KF_PortFreedAfterDone = FALSE
   KF_MidEstablishLeak = FALSE
 INVARIANTS
+  NoSpuriousStartFailure
   FlagsClean
   AcceptOnlyBackendChanges
   NoOrphanConn
